@@ -178,6 +178,8 @@ c20=[job("types-unnamed","auparse","VH_TypeRoundTrip",["C20/"],{"range":1},Q,bou
      job("rule-tables","rule","VH_RuleTables",["C20/"],{},Q,bounds="every field/operator/comparison entry, reverse arch and reverse syscall tables (exhaustive, concrete)",max_steps=80000000)]
 c20.append(job("norm-tables","aucoalesce","VH_NormTables",["C20/"],{},Q,bounds="every record type and syscall named in the normalisation tables (table image of the current normalizations.yaml), exhaustive",max_steps=200000000))
 c20.append(job("event-type-stable","aucoalesce","VH_EventTypeStable",["C20/"],{},Q,no_native=True,bounds="GetAuditEventType for a symbolic 16-bit record type: two calls agree, and the result is the same under insertion-order and reverse-order map iteration"))
+c20.append(job("norm-selection-record-types","aucoalesce","VH_NormSelection",["C20/"],{},Q,bounds="for every record type of the normalisation table: two events with independently chosen has_fields sets, then the first content again: action is one of a qualifying normalisation, and does not depend on what was processed before"))
+c20.append(job("norm-selection-syscalls","aucoalesce","VH_NormSelection",["C20/"],{"syscalls":1},Q,bounds="for every syscall name of the table (and an unlisted one): SYSCALL event, another SYSCALL event (4 choices), the first again: action is that syscall's (or the default's), independent of history"))
 C["C20"]={"jobs":c20,"assumptions":["tables are finite data: apart from the 16-bit record-type domain and the UNKNOWN[n] text path the check is a case split per entry, decided by evaluating the real lookups on the real tables (solver only prunes)"],
    "outside":["the YAML decoder (gopkg.in/yaml.v3 is reflection; the normalisation table enters through a table image regenerated natively)"]}
 
